@@ -1,8 +1,228 @@
-import RulioModel.Spec
+import RulioProofs.StateC08
 
-/-! # C08 — deleteWith cascade (placeholder obligations until the State proofs land) -/
+/-! # C08 — deleteWith removes exactly the dependents, durably, and terminates (property theorems only)
 
-/-- the closure of a cycle a ↔ b starting from a deletes both and nothing else -/
-theorem closure_cycle :
-    closure [("a", [("deleteWith", .arr [.str "b"])]), ("b", [("deleteWith", .arr [.str "a"])]), ("c", [("x", .num 1)])] ["a"]
-      = ["a", "b"] := by decide
+Model: `RulioModel/State.lean` (`St.irem/ideps/iremAll/isearch…` = `IndexedState.rem/deleteDependencies/search`,
+`St.lrem/…` = `LinearState`), specification: `closure`/`specRem` in `RulioModel/Spec.lean`, invariants and the
+corrected recursion budget `St.fuelOK`/`St.remOK` in `RulioModel/StateInv.lean`.
+
+Hypotheses used below:
+* `WF s`          — unique fact ids, no variable-looking id, and (indexed state) the term index lists every stored
+                    fact under each of its terms, id lists without duplicates; holds for every reachable state
+                    (`reachable_wf`);
+* `NoneExpired s now` — no stored fact is expired at `now` (expiry purges interleave another cascade);
+* `isVar id = false`  — the root id is not variable-looking (known finding: such an id is a pattern variable);
+* `UnindexOK s`   — (indexed state, only for "rem does not fail") every stored rule can leave the pattern index. -/
+
+/-! ## the matcher on the cascade's pattern -/
+
+/-- **Matcher lemma.** For a constant `id`, the pattern `{"deleteWith":[id]}` matches a fact iff the fact has a key
+`deleteWith` holding an *array* that contains the *string* `id` (duplicates, non-array values, other element types
+and `?`-strings inside the fact's array do not matter); it then yields exactly one empty binding and never fails. -/
+theorem dep_pattern_match (id : String) (hid : isVar id = false) (fact : Obj) :
+    matchesJ (.obj [("deleteWith", .arr [.str id])]) (.obj fact)
+      = .ok (if (deleteWithOf fact).contains id then [[]] else []) :=
+  matchesJ_depPat id hid fact
+
+/-! ## the specification is the least closed set -/
+
+/-- the closure contains its roots -/
+theorem closure_contains_roots (F : List (String × Obj)) (roots : List String) :
+    ∀ r, r ∈ roots → r ∈ closure F roots := closure_roots F roots
+
+/-- the closure is closed: a stored fact naming a member in `deleteWith` is a member
+(so `|facts|` rounds of `depsStep` are enough) -/
+theorem closure_is_closed (F : List (String × Obj)) (roots : List String) (k d : String) (fact : Obj)
+    (hm : (k, fact) ∈ F) (hd : d ∈ closure F roots) (hdep : d ∈ deleteWithOf fact) : k ∈ closure F roots :=
+  closure_closed F roots hm hd (by simpa [depOn] using hdep)
+
+/-- the closure is the least such set -/
+theorem closure_is_least (F : List (String × Obj)) (roots : List String) (X : String → Prop)
+    (hroots : ∀ r, r ∈ roots → X r)
+    (hstep : ∀ k fact d, (k, fact) ∈ F → X d → d ∈ deleteWithOf fact → X k) :
+    ∀ k, k ∈ closure F roots → X k :=
+  closure_least F roots X hroots (fun k fact d hm hX hdep => hstep k fact d hm hX (by simpa [depOn] using hdep))
+
+/-! ## termination -/
+
+/-- a reachable indexed state on which the budget `6·|facts|+12` of `St.fuel` is too small: nine ids that were
+added with `deleteWith:["x"]`, overwritten, then removed stay (stale) in the term index under `deleteWith` and `x` -/
+def staleOps : List Op :=
+  (List.range 9).flatMap (fun i =>
+    [Op.add ("a" ++ toString i) [("deleteWith", J.arr [.str "x"])] 0,
+     Op.add ("a" ++ toString i) [("k", J.num 1)] 0,
+     Op.rem ("a" ++ toString i) 0])
+
+def isFuelErr {α} : Except LErr α → Bool
+  | .error e => e == "fuel"
+  | .ok _ => false
+
+/-- **Negative (model budget, not the Go code).** After `staleOps` the indexed state is empty, the budget
+`6·|facts|+12 = 12` runs out in `Rem "x"` (the Go code has no budget and returns `false, nil`);
+with the corrected budget the same call succeeds. -/
+theorem fuel_insufficient :
+    (St.run { kind := .indexed } staleOps).facts = [] ∧
+    isFuelErr (St.irem (6 * (St.run { kind := .indexed } staleOps).facts.length + 12)
+      (St.run { kind := .indexed } staleOps) "x" 0).2 = true ∧
+    ((St.run { kind := .indexed } staleOps).remOK "x" 0).2 = .ok false := by
+  refine ⟨by decide +kernel, by decide +kernel, ?_⟩
+  have : (match ((St.run { kind := .indexed } staleOps).remOK "x" 0).2 with
+      | .ok false => true | _ => false) = true := by decide +kernel
+  split at this
+  · assumption
+  · cases this
+
+/-- **cascade_terminates.** With the budget `St.fuelOK s = 6·|facts| + 12 + tiWidth` the recursion of `Rem` never
+runs out of fuel — for both state kinds, every id (present, absent, dangling, variable-looking), and every
+dependency graph (cycles, self-loops, fans, chains). -/
+theorem cascade_terminates (s : St) (now : Int) (hwf : WF s) (hne : NoneExpired s now) (id : String) :
+    (s.remOK id now).2 ≠ .error "fuel" :=
+  remWith_ne_fuel hwf hne id (Nat.le_refl _)
+
+/-- **Fuel monotonicity.** Every budget at least `St.fuelOK s` gives the same state and the same result:
+the budget is a proof device, not part of the behaviour. -/
+theorem cascade_fuel_irrelevant (s : St) (now : Int) (hwf : WF s) (hne : NoneExpired s now) (id : String)
+    (g : Nat) (hg : s.fuelOK ≤ g) : s.remWith g id now = s.remOK id now :=
+  remWith_mono hwf hne id hg
+
+/-- for the linear state the model's present budget `St.fuel` is already sufficient: `St.rem` is `St.remOK` -/
+theorem rem_linear_budget_ok (s : St) (now : Int) (hwf : WF s) (hk : s.kind = .linear) (hne : NoneExpired s now)
+    (id : String) : s.rem id now = s.remOK id now :=
+  rem_eq_remOK_linear hwf hk hne id
+
+/-- for the indexed state `St.fuel` is sufficient while the longest term-index list is at most `3·|facts|+6`
+(in particular when the index has no stale ids) -/
+theorem rem_indexed_budget_ok (s : St) (now : Int) (hwf : WF s) (hk : s.kind = .indexed) (hne : NoneExpired s now)
+    (hw : tiWidth s.ti ≤ 3 * s.facts.length + 6) (id : String) : s.rem id now = s.remOK id now :=
+  rem_eq_remOK_indexed hwf hk hne hw id
+
+/-! ## well-formedness is an invariant -/
+
+/-- `add` preserves well-formedness (successful or not) -/
+theorem wf_add (s : St) (hwf : WF s) (given : String) (x : Obj) (now : Int) : WF (s.add given x now).1 :=
+  hwf.add given x now
+
+/-- `rem` preserves well-formedness (successful or not, with either budget) -/
+theorem wf_rem (s : St) (hwf : WF s) (id : String) (now : Int) :
+    WF (s.remOK id now).1 ∧ WF (s.rem id now).1 :=
+  ⟨hwf.le (remOK_le s id now), hwf.le (rem_le s id now)⟩
+
+/-- **reachable_wf.** Every state reachable from the empty state of either kind by any history of
+`add`/`rem` operations is well-formed. -/
+theorem reachable_wf (k : Kind) (ops : List Op) : WF (St.run { kind := k } ops) :=
+  run_wf (wf_empty k) ops
+
+/-- removal never makes a fact expire: `NoneExpired` is preserved by `rem` -/
+theorem noneExpired_rem (s : St) (id : String) (now : Int) (hne : NoneExpired s now) :
+    NoneExpired (s.remOK id now).1 now :=
+  (remOK_le s id now).noneExpired hne
+
+/-! ## exactness -/
+
+/-- **cascade_exact.** When `Rem id` returns without error, the facts left are *exactly* `specRem s.facts id`
+— the same list, in the same order: the deleted ids are the least set containing `id` and closed under
+"names a deleted id in `deleteWith`" (see `closure_is_closed`/`closure_is_least`), nothing else is deleted —
+and the reported flag says whether `id` itself was stored. -/
+theorem cascade_exact (s s' : St) (now : Int) (id : String) (b : Bool) (hwf : WF s) (hne : NoneExpired s now)
+    (hid : isVar id = false) (hr : s.remOK id now = (s', .ok b)) :
+    s'.facts = specRem s.facts id ∧ b = amHas s.facts id := by
+  obtain ⟨D, hD, hgone, hb⟩ := remWith_post hwf hne hid hr
+  exact ⟨(cascaded_exact hD hgone).1, hb⟩
+
+/-- **Rem does not fail**: in the linear state always, in the indexed state when every stored rule can leave the
+pattern index (`UnindexOK`, see `cascade_aborts_on_unindex_error` for what happens otherwise). -/
+theorem cascade_ok (s : St) (now : Int) (id : String) (hwf : WF s) (hne : NoneExpired s now)
+    (hid : isVar id = false) (hun : s.kind = .indexed → UnindexOK s) :
+    ∃ s' b, s.remOK id now = (s', .ok b) :=
+  remWith_ok hwf hne hid hun (Nat.le_refl _)
+
+/-- both state kinds delete the same facts -/
+theorem cascade_kinds_agree (s t s' t' : St) (now : Int) (id : String) (b c : Bool)
+    (hs : WF s) (ht : WF t) (hsn : NoneExpired s now) (htn : NoneExpired t now) (hfacts : s.facts = t.facts)
+    (hid : isVar id = false) (hrs : s.remOK id now = (s', .ok b)) (hrt : t.remOK id now = (t', .ok c)) :
+    s'.facts = t'.facts ∧ b = c := by
+  obtain ⟨h1, h2⟩ := cascade_exact s s' now id b hs hsn hid hrs
+  obtain ⟨h3, h4⟩ := cascade_exact t t' now id c ht htn hid hrt
+  rw [h1, h3, h2, h4, hfacts]; exact ⟨rfl, rfl⟩
+
+/-! ## durability -/
+
+/-- **cascade_durable.** Every deleted fact id is also removed from storage, and no storage entry outside the
+deleted closure changes (storage is touched only through the ids of the closure). -/
+theorem cascade_durable (s s' : St) (now : Int) (id : String) (b : Bool) (hwf : WF s) (hne : NoneExpired s now)
+    (hid : isVar id = false) (hr : s.remOK id now = (s', .ok b)) :
+    (∀ k, k ∈ closure s.facts [id] → amHas s.facts k = true → amGet s'.store k = none) ∧
+    (∀ k, k ∉ closure s.facts [id] → amGet s'.store k = amGet s.store k) := by
+  obtain ⟨D, hD, hgone, _⟩ := remWith_post hwf hne hid hr
+  obtain ⟨_, hsub, hsup⟩ := cascaded_exact hD hgone
+  constructor
+  · intro k hk hhas
+    have hkeys : k ∈ keysOf s.facts := by
+      rw [amHas_eq_isSome] at hhas; exact amGet_isSome_iff.1 hhas
+    rw [hD.store, amGet_filterOut, if_pos (hsup k hk hkeys)]
+  · intro k hk
+    rw [hD.store, amGet_filterOut, if_neg (fun h => hk (hsub k h))]
+
+/-! ## a rule that cannot leave the pattern index blocks the cascade (indexed state) -/
+
+/-- a scheduled rule whose `when` holds an array that the pattern index cannot sort -/
+def stuckRule : Obj :=
+  [("rule", .obj [("schedule", .str "+1h"), ("when", .obj [("a", .arr [.num 1, .str "x"])]),
+                  ("action", .obj [("code", .str "1")])])]
+
+def stuckOps : List Op :=
+  [Op.add "r1" stuckRule 0, Op.add "d1" [("deleteWith", J.arr [.str "r1"]), ("k", .str "v")] 0]
+
+/-- **Negative (confirmed on the real code).** `AddFact` accepts the scheduled rule `stuckRule` in the indexed state
+(scheduled rules are not put into the pattern index), but `RemFact "r1"` then fails with `notSortable` because it
+tries to remove the `when` pattern from the pattern index: the rule stays, and so does its dependent `d1`.
+The linear state deletes both. -/
+theorem cascade_aborts_on_unindex_error :
+    ((St.run { kind := .indexed } stuckOps).remOK "r1" 0).2 = .error "notSortable" ∧
+    ((St.run { kind := .indexed } stuckOps).remOK "r1" 0).1.facts.map (·.1) = ["r1", "d1"] ∧
+    ((St.run { kind := .linear } stuckOps).remOK "r1" 0).1.facts = [] := by
+  refine ⟨?_, by decide +kernel, ?_⟩
+  · have : (match ((St.run { kind := .indexed } stuckOps).remOK "r1" 0).2 with
+        | .error e => e == "notSortable" | _ => false) = true := by decide +kernel
+    split at this
+    · rename_i e he; rw [he]; simp at this; rw [this]
+    · cases this
+  · have hwf := reachable_wf .linear stuckOps
+    have hne : NoneExpired (St.run { kind := .linear } stuckOps) 0 := noneExpired_of_check (by decide +kernel)
+    obtain ⟨s', b, hr⟩ := cascade_ok _ 0 "r1" hwf hne (by decide +kernel) (fun h => by rw [run_kind] at h; cases h)
+    rw [hr, (cascade_exact _ s' 0 "r1" b hwf hne (by decide +kernel) hr).1]
+    decide +kernel
+
+/-! ## non-vacuity -/
+
+/-- a cycle `a ↔ b`, a self-loop `c` that also names `a`, a fact `d` hanging on the dangling id `zz`,
+and an unrelated fact `e` -/
+def cycleOps : List Op :=
+  [Op.add "a" [("deleteWith", J.arr [.str "b"])] 0, Op.add "b" [("deleteWith", J.arr [.str "a"])] 0,
+   Op.add "c" [("deleteWith", J.arr [.str "c", .str "a"])] 0, Op.add "d" [("deleteWith", J.arr [.str "zz"])] 0,
+   Op.add "e" [("x", J.num 1)] 0]
+
+/-- the hypotheses of the theorems above hold for a non-trivial state of each kind (so `Rem` succeeds), and the
+conclusion is the expected one: deleting `a` deletes `a`, `b`, `c` and keeps `d`, `e`; deleting the dangling id
+`zz` deletes `d` only -/
+example (k : Kind) :
+    WF (St.run { kind := k } cycleOps) ∧ NoneExpired (St.run { kind := k } cycleOps) 0 ∧
+    (k = .indexed → UnindexOK (St.run { kind := k } cycleOps)) ∧
+    (∃ s' b, (St.run { kind := k } cycleOps).remOK "a" 0 = (s', .ok b) ∧ s'.facts.map (·.1) = ["d", "e"] ∧ b = true) ∧
+    (∃ s' b, (St.run { kind := k } cycleOps).remOK "zz" 0 = (s', .ok b) ∧
+      s'.facts.map (·.1) = ["a", "b", "c", "e"] ∧ b = false) := by
+  have hwf := reachable_wf k cycleOps
+  have hne : NoneExpired (St.run { kind := k } cycleOps) 0 :=
+    noneExpired_of_check (by cases k <;> decide +kernel)
+  have hun : UnindexOK (St.run { kind := k } cycleOps) := unindexOK_of_check (by cases k <;> decide +kernel)
+  refine ⟨hwf, hne, fun _ => hun, ?_, ?_⟩
+  · obtain ⟨s', b, hr⟩ := cascade_ok _ 0 "a" hwf hne (by decide +kernel) (fun _ => hun)
+    obtain ⟨h1, h2⟩ := cascade_exact _ s' 0 "a" b hwf hne (by decide +kernel) hr
+    refine ⟨s', b, hr, ?_, ?_⟩
+    · rw [h1]; cases k <;> decide +kernel
+    · rw [h2]; cases k <;> decide +kernel
+  · obtain ⟨s', b, hr⟩ := cascade_ok _ 0 "zz" hwf hne (by decide +kernel) (fun _ => hun)
+    obtain ⟨h1, h2⟩ := cascade_exact _ s' 0 "zz" b hwf hne (by decide +kernel) hr
+    refine ⟨s', b, hr, ?_, ?_⟩
+    · rw [h1]; cases k <;> decide +kernel
+    · rw [h2]; cases k <;> decide +kernel
